@@ -19,6 +19,13 @@ CLAIMED = {
          "the level of the Core tree.",
          "Intraprocedural taint; interprocedural flows are covered through the Core.ty field rule (R-C11-3). Typing imports may differ (allowed by the property).",
          "5/C11"),
+ "C03": ("panic-obligation census on MIR against a reviewed table + recursion census over the call graph SCCs + loop-progress and parser-callback must-consume (greatest fixpoint) + sign analysis of signed->unsigned casts",
+         "Decides the structural half of totality: every construct that can panic (79 explicit sites and 70 arithmetic asserts today) is mechanically "
+         "discharged or reviewed with its invariant, and the invariants themselves are checked (never-shrinking constraint vector, zero carets only from "
+         "invisible(), union never on invisible); every recursive SCC (38) is an owned-tree recursion, reviewed, or protected by the acyclicity "
+         "validation; every loop (77) has a progress call and every parser loop callback (21) consumes a token on each Ok path; the unifier's "
+         "re-insertion guard is intact.",
+         "Time bound and absolute stack depth are not decided (assumption: nesting <= 500, input < 2 GiB). Known finding D9 (unifier recursion depth) is listed.", "5/C03"),
  "C07": ("Ok-path must-call on resolved MIR + decision-table enumeration + flag provenance + environment field-flow (abstract interpretation over the syntax)",
          "Decides four structural necessary conditions of the reject half: every path through the reassignment arm to an Ok return passes the "
          "mutability check (all CFG paths, resolved callees); the check's own decision table equals the specification on all 16 valuations; the "
